@@ -649,6 +649,10 @@ def generate(repo, pid='C01', extra_imports=(), extra_opens=(), extra=None, skip
             sin = call_arg(c, 0, 'samples_in')
             if not isinstance(fw, ast.Constant) or u(sin) != 'ary.shape':
                 raise Untranslatable(f'{meth}: key arguments')
+            for pos, kw in ((1, 'Q'), (2, 'samples_out'), (3, 'shift')):
+                a_ = call_arg(c, pos, kw)
+                if a_ is None or u(a_) != kw:
+                    raise Untranslatable(f'{meth}: _key is not handed its own {kw}')
             vals[meth] = fw.value
         return (f'def mdftDft2IsFwd : Bool := {"true" if vals["dft2"] else "false"}\n'
                 f'def mdftIdft2IsFwd : Bool := {"true" if vals["idft2"] else "false"}')
